@@ -92,6 +92,20 @@ Proof.
   - intros H. exists AReader. exact H.
 Qed.
 
+Lemma sound_bump1 l x : sound l x -> sound l (bump1 x).
+Proof. destruct x as [[[[d|c]|] r']|]; simpl; auto. Qed.
+
+Lemma ctl_alt_sound r : sound (r_l r) (ctl_alt r).
+Proof.
+  unfold ctl_alt. destruct (r_ph r); try exact I.
+  match goal with |- context [if ?b then _ else _] => idtac | _ => idtac end.
+  repeat match goal with
+         | |- sound _ (match ?e with _ => _ end) => destruct e; try exact I
+         | |- sound _ (if ?e then _ else _) => destruct e; try exact I
+         end;
+  apply sound_bump1; first [apply sound_just_ph | apply sound_stop_move].
+Qed.
+
 (** one move of the executable run: at most one action of the all-schedules system *)
 Theorem rstep_sound pol r x r' : rstep pol r = Some (x, r') ->
   (exists a, mixed_step (r_l r) a = Some (r_l r')) \/ r_l r' = r_l r.
@@ -147,15 +161,12 @@ Proof.
     - destruct (newest_ok obs (r_l r1)); [eapply IH; exact H1|discriminate]. }
   pose proof (ctl_move_sound r) as Hc.
   match type of H with match ?e with _ => _ end = _ => destruct e as [xa|] eqn:Halt end.
-  { inversion H; subst xa. destruct (ctl_alt r) as [ra|] eqn:Era; [|discriminate].
-    destruct (Hgo _ Halt) as [sigma Hsig]. exists sigma.
-    assert (El : r_l ra = r_l r).
-    { unfold ctl_alt in Era. destruct (r_ph r); try discriminate.
-      repeat match type of Era with
-             | context [match ?e with _ => _ end] => destruct e; try discriminate
-             | context [if ?e then _ else _] => destruct e; try discriminate
-             end. inversion Era. reflexivity. }
-    rewrite <- El. exact Hsig. }
+  { inversion H; subst xa. pose proof (ctl_alt_sound r) as Ha.
+    destruct (ctl_alt r) as [[y ra]|] eqn:Era; [|discriminate].
+    destruct (Hgo _ Halt) as [sigma Hsig].
+    destruct y as [[d|c]|]; simpl in Ha; [contradiction| |].
+    - exists (MCtl c :: sigma). simpl. rewrite Ha. exact Hsig.
+    - exists sigma. rewrite <- Ha. exact Hsig. }
   destruct (step_now (r_l r)) as [l1|] eqn:Hs.
   - destruct (step_now_sched _ _ Hs) as [a Ha].
     destruct (ctl_move r) as [[y r1]|].
